@@ -151,6 +151,9 @@ class Executor(Engine, ExprMixin, StmtMixin, CallMixin):
             return
         if m.startswith('*.'):
             f = m[2:]
+            if f.endswith(('{}', '[]')):
+                raise EngineError('frame pattern %s is not supported (the containers stored in a field of all objects cannot be named; '
+                                  'use *{} / *[] or name the objects)' % m)
             st.heap[f] = fresh('hv_' + f, FieldArr)
             return
         if m.endswith('{}') or m.endswith('[]'):
@@ -1073,6 +1076,8 @@ class Executor(Engine, ExprMixin, StmtMixin, CallMixin):
             elif m.startswith('$'):
                 whole.add(m)
             elif m.startswith('*.'):
+                if m.endswith(('{}', '[]')):
+                    raise EngineError('frame pattern %s is not supported' % m)
                 whole.add(m[2:])
             elif m.endswith('{}') or m.endswith('[]'):
                 base = self.eval_in(pre, c, env, m[:-2])
